@@ -17,7 +17,8 @@ introspection and called with generated arguments (recipes below; methods withou
 their signature allows it and are otherwise listed in the evidence as `no-recipe:<name>`).  Before and after each call the
 receiver's `__dict__` is frozen recursively (array bytes + identity, dask graph name, metadata dict, axes dataclasses, sampling
 ...); lazy results are computed before the second snapshot, because an in-place operation inside a task would alter the
-caller's array only then.  Methods that are in-place by contract (`compute`, `set_ensemble_axes_metadata`) and I/O or plotting
+caller's array only then.  After the call with the recipe's arguments each method is called again with one keyword at a time set
+to a non-default option discovered from its signature, docstring and source (`keyword_options`).  Methods that are in-place by contract (`compute`, `set_ensemble_axes_metadata`) and I/O or plotting
 methods (`show`, `to_zarr`, `to_tiff`, `to_gpu`) are not called.
 """
 import copy
@@ -35,12 +36,15 @@ RULE = ("part A: structure kind (ortho/hex/hex60/monoclinic/fcc-primitive/tricli
         "to the cell, zero tolerances/repetitions/sigmas, seed 0; entry point drawn from orthogonalize_cell, standardize_cell, abtem.atoms helpers, "
         "potential, frozen_phonons, atoms_ensemble, structure_factor, bloch_waves, smatrix with random keyword arguments; part B: "
         "receiver class (7), real/complex, eager/lazy, ensemble axes incl. size 1, size-1 base axes, then every public method with generated "
-        "or (40 %) boundary arguments (zero widths, unit repetitions, full crops, dose 0, seed 0, numpy scalar indices); non-trivial "
+        "or (40 %) boundary arguments (zero widths, unit repetitions, full crops, dose 0, seed 0, numpy scalar indices), followed by "
+        "single-keyword variants with non-default options found by introspection (bool flipped; string options from the docstring "
+        "entry and from the literals the source compares the keyword with, plus 'none'/None; numbers 0/1): all of them in the fixed "
+        "and 15 % of the random cases, two per method otherwise; non-trivial "
         "= the entry point returned normally at least once (A) / at least 10 methods returned a new measurement (B); distinct = "
         "distinct case signature")
 CLAUSES = ["atoms-unchanged-after-return", "atoms-unchanged-after-exception", "receiver-unchanged:returns-new",
-           "receiver-unchanged:raised", "receiver-unchanged:other-return"]
-QUICK = dict(n=60, time=25)
+           "receiver-unchanged:raised", "receiver-unchanged:other-return", "keyword-variant-evaluated"]
+QUICK = dict(n=60, time=35)
 THOROUGH = dict(n=5270, time=480, shards=16)
 
 ATOM_OPS = ["orthogonalize_cell", "orthogonalize_cell", "orthogonalize_cell", "standardize_cell", "helper", "helper", "potential",
@@ -51,6 +55,8 @@ RECEIVERS = ["images", "images", "dp", "dp", "polar", "rline", "kline", "indexed
 IN_PLACE_BY_CONTRACT = {"compute", "set_ensemble_axes_metadata"}
 # returns a float, and its first call spends ~15 s in numba compilation: thorough tier only
 QUICK_SKIP = {"max_reciprocal_space_vector_length"}
+# one variant per case is enough for these (numba compilation / large intermediate arrays)
+HEAVY_VARIANTS = {"index_diffraction_spots", "to_diffraction_patterns", "scan_noise"}
 NOT_CALLED = {"show", "to_zarr", "to_tiff", "to_gpu", "from_zarr", "from_array_and_metadata"}
 
 
@@ -377,7 +383,7 @@ def gen_measurement(rng):
     if kind in ("images", "rline", "kline", "ensemble") and rng.random() < 0.1:
         base[int(rng.integers(0, len(base)))] = 1          # size-1 base axis
     return {"kind": kind, "base": base, "ens": ens, "complex": bool(rng.random() < 0.5), "lazy": bool(rng.random() < 0.4),
-            "hostile": bool(rng.random() < 0.4),
+            "hostile": bool(rng.random() < 0.4), "variants": "all" if rng.random() < 0.15 else "some",
             "chunk_members": bool(rng.random() < 0.5), "seed": int(rng.integers(0, 2 ** 31)),
             "extra_metadata": bool(rng.random() < 0.5)}
 
@@ -569,8 +575,57 @@ def _array_objects(out):
     return []
 
 
+_OPTION_CACHE = {}
+
+
+def keyword_options(cls, name):
+    """Alternative values for the keyword arguments of `cls.name`, discovered by introspection:
+    bool defaults are flipped; for string defaults the quoted words of the parameter's docstring entry and the string
+    literals the source compares the parameter with (`shift != "none"`, `method == "fft"`, `boundary in (...)`) are collected,
+    plus the generic spellings "none" and None; numeric defaults get 0 and 1.  Returns {param: [values]}."""
+    import re
+    key = (cls, name)
+    if key in _OPTION_CACHE:
+        return _OPTION_CACHE[key]
+    out = {}
+    func = getattr(cls, name)
+    try:
+        params = inspect.signature(func).parameters
+    except (TypeError, ValueError):
+        _OPTION_CACHE[key] = out
+        return out
+    doc = inspect.getdoc(func) or ""
+    try:
+        src = inspect.getsource(func)
+    except (OSError, TypeError):
+        src = ""
+    for pname, par in params.items():
+        if pname == "self" or par.default is par.empty or par.kind in (par.VAR_POSITIONAL, par.VAR_KEYWORD):
+            continue
+        d = par.default
+        vals = []
+        if isinstance(d, bool):
+            vals = [not d]
+        elif isinstance(d, str):
+            words = set()
+            m = re.search(r"^\s*%s\s*:(.*?)(?=^\s*\w+\s*:|\Z)" % re.escape(pname), doc, re.S | re.M)
+            if m:
+                words |= set(re.findall(r"['\"]([A-Za-z_][\w\-/ ]{0,24})['\"]", m.group(1)))
+            for lit in re.findall(r"\b%s\s*(?:==|!=|in)\s*([^\n:]+)" % re.escape(pname), src):
+                words |= set(re.findall(r"['\"]([^'\"]{1,25})['\"]", lit))
+            words |= {"none"}
+            vals = sorted(w for w in words if w != d) + [None]
+        elif isinstance(d, (int, float)) and not isinstance(d, bool):
+            vals = [v for v in (0, 1) if v != d]
+        if vals:
+            out[pname] = vals
+    _OPTION_CACHE[key] = out
+    return out
+
+
 def check_measurement(ctx, case):
     rng = np.random.default_rng(case["seed"] + 1)
+    state = {"new_returns": 0}
     with warnings.catch_warnings():
         warnings.simplefilter("ignore")
         try:
@@ -578,23 +633,10 @@ def check_measurement(ctx, case):
         except Exception as e:
             ctx.note("receiver-not-built:%s:%s" % (case["kind"], type(e).__name__))
             return
-        names = public_methods(obj)
-        new_returns = 0
-        for name in names:
-            if name in IN_PLACE_BY_CONTRACT or name in NOT_CALLED:
-                ctx.note("not-called:" + name)
-                continue
-            if ctx.tier == "quick" and name in QUICK_SKIP:
-                ctx.note("not-called-in-quick-tier:" + name)
-                continue
-            try:
-                kwargs = recipe(obj, name, rng, case)
-            except Exception as e:
-                ctx.note("recipe-failed:%s:%s" % (name, type(e).__name__))
-                continue
-            if kwargs is None:
-                ctx.note("no-recipe:" + name)
-                continue
+        holder = {"obj": obj, "base": base}
+
+        def probe(name, kwargs, variant=None):
+            obj, base = holder["obj"], holder["base"]
             before = snap_receiver(obj, base)
             raised = None
             out = None
@@ -614,7 +656,7 @@ def check_measurement(ctx, case):
                 # the lazy receiver was computed in place: same values, only its laziness changed (not what the statement is about)
                 ctx.note("lazy-receiver-computed-in-place-by:" + name)
                 changed = []
-                obj, base = build_receiver(case)
+                holder["obj"], holder["base"] = build_receiver(case)
             gained = [k for k in after if k not in before]
             if gained:
                 ctx.note("receiver-gained-attribute:%s:%s" % (name, ",".join(gained)))
@@ -627,14 +669,51 @@ def check_measurement(ctx, case):
                 if "<metadata>" in changed:
                     detail["metadata_before"] = repr(before["<metadata>"])[:300]
                     detail["metadata_after"] = repr(after["<metadata>"])[:300]
-            ctx.expect(not changed, clause, method=name, receiver=type(obj).__name__, raised=raised, lazy=case["lazy"], **detail)
-            ctx.monitor("method:%s:%s" % (name, "raised" if raised else "new" if returns_new else "other"))
-            if returns_new:
-                new_returns += 1
+            ctx.expect(not changed, clause, method=name, receiver=type(obj).__name__, raised=raised, lazy=case["lazy"],
+                       variant=variant, **detail)
+            if variant is None:
+                ctx.monitor("method:%s:%s" % (name, "raised" if raised else "new" if returns_new else "other"))
+                if returns_new:
+                    state["new_returns"] += 1
+            else:
+                ctx.monitor("keyword-variants:%s" % ("raised" if raised else "returned"))
+                ctx.clauses["keyword-variant-evaluated"] += 1
             if changed:
-                obj, base = build_receiver(case)     # keep the following methods independent of this mutation
+                holder["obj"], holder["base"] = build_receiver(case)     # keep the following calls independent of this mutation
+
+        for name in public_methods(obj):
+            if name in IN_PLACE_BY_CONTRACT or name in NOT_CALLED:
+                ctx.note("not-called:" + name)
+                continue
+            if ctx.tier == "quick" and name in QUICK_SKIP:
+                ctx.note("not-called-in-quick-tier:" + name)
+                continue
+            try:
+                kwargs = recipe(holder["obj"], name, rng, case)
+            except Exception as e:
+                ctx.note("recipe-failed:%s:%s" % (name, type(e).__name__))
+                continue
+            if kwargs is None:
+                ctx.note("no-recipe:" + name)
+                continue
+            probe(name, kwargs)
+            # non-default keyword values: one keyword at a time on top of the recipe's arguments
+            options = keyword_options(type(holder["obj"]), name)
+            variants = [(k, v) for k, vals in options.items() for v in vals]
+            mode = case.get("variants", "some")
+            if mode != "all" and len(variants) > 2:
+                pick = rng.choice(len(variants), size=2, replace=False)
+                variants = [variants[int(i)] for i in pick]
+            if name in HEAVY_VARIANTS and mode != "all-heavy":
+                variants = variants[:1]
+            for k, v in variants:
+                try:
+                    kw = dict(recipe(holder["obj"], name, rng, case) or {}, **{k: v})
+                except Exception:
+                    continue
+                probe(name, kw, variant="%s=%r" % (k, v))
         ctx.monitor("receiver:" + case["kind"])
-        ctx.nontrivial(new_returns >= 10)
+        ctx.nontrivial(state["new_returns"] >= 10)
 
 
 # =========================================================================== harness entry points
@@ -697,11 +776,15 @@ def fixed_cases(tier):
         out.append({"part": "measurement", "kind": kind, "base": [16, 18] if kind != "rline" else [1],
                     "ens": [{"kind": "scan", "n": 1}, {"kind": "scan", "n": 2}] if kind == "dp" else [{"kind": "ordinal", "n": 1}],
                     "complex": kind != "dp", "lazy": False, "chunk_members": True, "seed": 0, "extra_metadata": False, "hostile": True})
-    for k, kind in enumerate(["images", "dp", "polar", "rline", "kline", "indexed", "ensemble"]):
-        out.append({"part": "measurement", "kind": kind, "base": [16, 18] if kind not in ("rline", "kline") else [24],
-                    "ens": [{"kind": "scan", "n": 3}, {"kind": "scan", "n": 2}] if kind in ("dp", "polar", "indexed") else
-                    [{"kind": "ordinal", "n": 3}], "complex": kind not in ("dp", "indexed"), "lazy": k % 2 == 1,
-                    "chunk_members": True, "seed": 5 + k, "extra_metadata": True})
+    # every receiver class, eager and lazy, with EVERY single-keyword variant of every method (non-default options)
+    k = 0
+    for kind in ["images", "dp", "polar", "rline", "kline", "indexed", "ensemble"]:
+        for lazy in ((False, True) if kind not in ("kline", "indexed") else (False,)):
+            k += 1
+            out.append({"part": "measurement", "kind": kind, "base": [16, 18] if kind not in ("rline", "kline") else [24],
+                        "ens": [{"kind": "scan", "n": 3}, {"kind": "scan", "n": 2}] if kind in ("dp", "polar", "indexed") else
+                        [{"kind": "ordinal", "n": 3}], "complex": kind not in ("dp", "indexed") and k % 3 != 0, "lazy": lazy,
+                        "chunk_members": True, "seed": 5 + k, "extra_metadata": True, "variants": "all"})
     return out
 
 
